@@ -72,6 +72,19 @@ def build_jobs(prop, tier, seed, names, include_points=False, zero_cap_stream=Tr
                              "points": 0.08, "deadline_s": 100 if q else 900, "hull_limit": 3000},
                             mode="jit" if c % 2 else "interp", timeout=400 if q else 1500, tag="wide:%d" % c,
                             stall_s=60 if c % 2 else None))
+    # almost-ground stream: arity 7-14 with all but 1-3 variables instantiated - the enumerating oracles stay exact (hull,
+    # "every tuple of an entailed box satisfies") while the propagators walk long argument lists
+    ag = [n for n in names if n not in ("dummy", "element_iv")]
+    if ag:
+        for c in range(2 if q else 6):
+            jobs.append(Job("framework.props.calls", "run_calls",
+                            {"props": props, "names": ag, "kind": "random", "tier": tier,
+                             "seed": seed * 60017 + c * 41 + 13, "count": (500 if q else 6000) * len(ag),
+                             "opts": {"max_arity": 14 if c % 2 else 10, "min_arity": 7, "width": 8 if c % 2 else 4,
+                                      "base": 4, "allow_all_zero": True, "almost_ground": 3 if c % 2 else 2},
+                             "deadline_s": 100 if q else 900},
+                            mode="jit" if c % 2 else "interp", timeout=400 if q else 1500, tag="almostground:%d" % c,
+                            stall_s=60 if c % 2 else None))
     if "lexicographic_leq" in names:
         # the lexicographic automaton only shows its later states on vectors of length >= 3 with non-boolean domains
         for c in range(2 if q else 4):
